@@ -215,8 +215,11 @@ def ground(t):
 WS = z3.Function("wsum", z3.ArraySort(z3.IntSort(), z3.RealSort()), z3.ArraySort(z3.IntSort(), z3.RealSort()), z3.IntSort(), z3.RealSort())
 
 
+_EXP_MEMO = {}
+
+
 def expand_arrays(f):
-    memo = {}
+    memo = _EXP_MEMO
     MILLE = z3.RealVal(1000)
 
     def sel(a, j):
@@ -253,6 +256,8 @@ def expand_arrays(f):
                 cv = a.arg(0)
                 if z3.is_rational_value(cv) and cv.numerator_as_long() == 0:
                     return z3.RealVal(0)
+        if z3.is_app(d) and d.decl().kind() == z3.Z3_OP_ITE:
+            return z3.If(d.arg(0), wsum(d.arg(1), a, k, False), wsum(d.arg(2), a, k, False))
         if top:
             return None
         return WS(d, a, k)
@@ -277,7 +282,7 @@ def expand_arrays(f):
 def ackermannize(fs, stats):
     """fs: list of ground formulas.  Returns (new formulas, axioms)."""
     memo = {}
-    tables = {"exp": [], "log": [], "pow": [], "wsum": [], "select": []}
+    tables = {"exp": [], "log": [], "pow": [], "wsum": [], "select": [], "round": []}
     byid = {}
     cnt = itertools.count()
 
@@ -286,12 +291,22 @@ def ackermannize(fs, stats):
             return None
         k = t.decl().kind()
         name = None
-        if k == z3.Z3_OP_SELECT and z3.is_const(nch[0]) and nch[0].decl().kind() == z3.Z3_OP_UNINTERPRETED:
-            name = "select"
+        if k == z3.Z3_OP_SELECT and z3.is_app(nch[0]) and nch[0].decl().kind() == z3.Z3_OP_UNINTERPRETED:
+            name = "select"      # base arrays: constants, and applications of the ghost weight family efac(z)
         elif k == z3.Z3_OP_UNINTERPRETED and t.decl().name() in ("exp", "log", "pow", "wsum") and t.num_args() > 0:
             name = t.decl().name()
+        elif k == z3.Z3_OP_UNINTERPRETED and t.decl().name().startswith("round_") and t.num_args() == 1:
+            name = "round"
         if name is None:
             return None
+        if name == "round":
+            key = (t.decl().name(), z3.simplify(nch[0]).get_id())
+            if key in byid:
+                return byid[key]
+            c = z3.Const("%s!a%d" % (t.decl().name(), next(cnt)), t.sort())
+            byid[key] = c
+            tables["round"].append((c, [z3.simplify(nch[0])], t.decl().name()))
+            return c
         key = (name,) + tuple(z3.simplify(c).get_id() if name != "select" or i > 0 else c.get_id() for i, c in enumerate(nch))
         if key in byid:
             return byid[key]
@@ -313,6 +328,21 @@ def ackermannize(fs, stats):
             if z3.is_int_value(d):
                 continue
             ax.append(z3.Implies(a1[1] == a2[1], c1 == c2))
+    # --- round_k(x): within half a unit of the last place, on the 10^-k grid, monotone (round-half-even is non-decreasing)
+    RND = tables["round"]
+    for c, (x,), fname in RND:
+        if fname == "round_int":
+            cr = z3.ToReal(c)
+            ax += [x - cr <= z3.RealVal("1/2"), cr - x <= z3.RealVal("1/2")]
+        else:
+            k = int(fname.split("_")[1])
+            scale = z3.RealVal(10 ** k)
+            half = z3.RealVal(1) / (2 * scale)
+            m = z3.Int("%s!grid" % c.decl().name())
+            ax += [x - c <= half, c - x <= half, c * scale == z3.ToReal(m)]
+    for (c1, (x1,), f1), (c2, (x2,), f2) in itertools.combinations(RND, 2):
+        if f1 == f2:
+            ax += [z3.Implies(x1 <= x2, c1 <= c2), z3.Implies(x2 <= x1, c2 <= c1)]
     # --- exp
     E = tables["exp"]
     for c, (t,) in E:
@@ -364,14 +394,49 @@ def ackermannize(fs, stats):
     extra_sel = []
     for c, (d, a, k) in W:
         ax.append(z3.Implies(k <= 0, c == 0))
+    def _efac_arg(d):
+        return d.arg(0) if (z3.is_app(d) and d.decl().name() == "efac" and d.num_args() == 1) else None
+    WE = [(c, d, a, k, _efac_arg(d)) for c, (d, a, k) in W]
+    WE = [x for x in WE if x[4] is not None]
+    for (c1, d1, a1, k1, z1), (c2, d2, a2, k2, z2) in itertools.combinations(WE, 2):
+        if not d1.eq(d2) and a1.eq(a2):
+            ax.append(z3.Implies(z3.And(z1 == z2, k1 == k2), c1 == c2))
+    SE = [(c, a, _efac_arg(a[0])) for c, a in sel]
+    SE = [x for x in SE if x[2] is not None]
+    for (c1, a1, z1), (c2, a2, z2) in itertools.combinations(SE, 2):
+        if not a1[0].eq(a2[0]):
+            ax.append(z3.Implies(z3.And(z1 == z2, a1[1] == a2[1]), c1 == c2))
     for (c1, (d1, a1, k1)), (c2, (d2, a2, k2)) in itertools.permutations(W, 2):
         if d1.eq(d2) and a1.eq(a2):
             ax.append(z3.Implies(k1 == k2, c1 == c2))
-            step = z3.Implies(z3.And(k2 == k1 + 1, k1 >= 0), c2 == c1 + MILLE * z3.Select(d1, k1) * z3.Select(a1, k1))
-            extra_sel.append(step)
+            pass
     stats["ackermann"] = {k: len(v) for k, v in tables.items()}
+    stats["ackermann"]["round"] = len(tables["round"])
     stats["_select_table"] = [(c, a[0], a[1]) for c, a in tables["select"]]
     return out, ax, extra_sel
+
+
+def wsum_unfoldings(fs):
+    """wsum(d,a,k2) = wsum(d,a,k1) + 1000*d[k1]*a[k1]  for k2 == k1+1 >= 1, for every pair of wsum terms over the same arrays"""
+    W = {}
+    seen = set()
+    allt = []
+    for f in fs:
+        subterms(f, seen, allt)
+    for t in allt:
+        if is_app_of(t, "wsum"):
+            W[t.get_id()] = t
+    W = list(W.values())
+    out = []
+    M = z3.RealVal(1000)
+    for w1, w2 in itertools.permutations(W, 2):
+        if w1.arg(0).eq(w2.arg(0)) and w1.arg(1).eq(w2.arg(1)):
+            k1, k2 = w1.arg(2), w2.arg(2)
+            d = z3.simplify(k2 - k1)
+            if z3.is_int_value(d) and d.as_long() != 1:
+                continue
+            out.append(z3.Implies(z3.And(k2 == k1 + 1, k1 >= 0), w2 == w1 + M * z3.Select(w1.arg(0), k1) * z3.Select(w1.arg(1), k1)))
+    return out
 
 
 # ----------------------------------------------------------------------------- pipeline
@@ -384,45 +449,277 @@ def conjuncts(f):
     return [f]
 
 
+class QInfo:
+    __slots__ = ("proxy", "univ", "body", "pol", "done", "patterns", "name")
+
+    def __init__(self, proxy, univ, body, pol, name):
+        self.proxy, self.univ, self.body, self.pol, self.name = proxy, univ, body, pol, name
+        self.done = {}
+        self.patterns = None
+
+
+def strip_array(a):
+    """base array of a store / ite chain (for trigger matching)"""
+    out = []
+    stack = [a]
+    while stack:
+        x = stack.pop()
+        if z3.is_app(x):
+            k = x.decl().kind()
+            if k == z3.Z3_OP_STORE:
+                stack.append(x.arg(0))
+                continue
+            if k == z3.Z3_OP_ITE:
+                stack.append(x.arg(1))
+                stack.append(x.arg(2))
+                continue
+        out.append(x)
+    return out
+
+
+def prep(f, pol, qs, sk, cnt):
+    """Replace quantifiers by proxies / Skolem constants.  pol=+1: f occurs positively in an asserted formula.
+    universal-positive and existential-negative quantifiers become Boolean proxies constrained later by instances (weakening);
+    universal-negative / existential-positive ones are Skolemised."""
+    if z3.is_quantifier(f):
+        univ = f.is_forall()
+        nv = f.num_vars()
+        if (univ and pol > 0) or ((not univ) and pol < 0):
+            p = z3.Bool("q!proxy%d" % next(cnt))
+            if nv == 1 and f.var_sort(0) == z3.IntSort():
+                qs.append(QInfo(p, univ, f.body(), pol, f.var_name(0)))
+            # (other shapes: the proxy stays unconstrained = the hypothesis is dropped)
+            return p
+        if (univ and pol < 0) or ((not univ) and pol > 0):
+            consts = [z3.Const("sk!%s!%d" % (f.var_name(i), next(sk.n)), f.var_sort(i)) for i in range(nv)]
+            b = z3.substitute_vars(f.body(), *reversed(consts))
+            return prep(b, pol, qs, sk, cnt)
+        return z3.Bool("q!opaque%d" % next(cnt))
+    if not z3.is_app(f) or not z3.is_bool(f) or not has_quant(f):
+        return f
+    k = f.decl().kind()
+    ch = f.children()
+    if k == z3.Z3_OP_AND:
+        return z3.And(*[prep(c, pol, qs, sk, cnt) for c in ch])
+    if k == z3.Z3_OP_OR:
+        return z3.Or(*[prep(c, pol, qs, sk, cnt) for c in ch])
+    if k == z3.Z3_OP_NOT:
+        return z3.Not(prep(ch[0], -pol, qs, sk, cnt))
+    if k == z3.Z3_OP_IMPLIES:
+        return z3.Implies(prep(ch[0], -pol, qs, sk, cnt), prep(ch[1], pol, qs, sk, cnt))
+    if k == z3.Z3_OP_ITE and not has_quant(ch[0]):
+        return z3.If(ch[0], prep(ch[1], pol, qs, sk, cnt), prep(ch[2], pol, qs, sk, cnt))
+    # quantifier under == / xor / ite-condition: both polarities.  An unconstrained proxy is NOT a sound weakening there in general,
+    # so the whole atom is replaced by a fresh Boolean only when it occurs positively at top level is unknown -> give up on this conjunct:
+    raise _Unsupported()
+
+
+class _Unsupported(Exception):
+    pass
+
+
+def q_patterns(q):
+    """(base array id, offset) pairs for select(A, var + c) occurrences in the body; None if the variable also occurs elsewhere in index position"""
+    pats = []
+    for t in subterms(q.body):
+        if z3.is_app(t) and t.decl().kind() == z3.Z3_OP_SELECT:
+            idx = t.arg(1)
+            off = var_offset(idx)
+            if off is None:
+                continue
+            for base in strip_array(t.arg(0)):
+                if ground(base):
+                    pats.append((base.get_id(), off))
+    return pats
+
+
+def q_bounds(q):
+    """ground lo / hi terms of a body of the shape  (lo <= j and j < hi) => ...  : candidates lo, hi-1, hi, lo-1"""
+    b = q.body
+    out = []
+    if not (z3.is_app(b) and b.decl().kind() == z3.Z3_OP_IMPLIES):
+        return out
+    guard = b.arg(0)
+    atoms = guard.children() if (z3.is_app(guard) and guard.decl().kind() == z3.Z3_OP_AND) else [guard]
+    for a in atoms:
+        if not (z3.is_app(a) and a.num_args() == 2):
+            continue
+        k = a.decl().kind()
+        x, y = a.arg(0), a.arg(1)
+        vx = z3.is_var(x) and z3.get_var_index(x) == 0
+        vy = z3.is_var(y) and z3.get_var_index(y) == 0
+        if k in (z3.Z3_OP_LE, z3.Z3_OP_GE, z3.Z3_OP_LT, z3.Z3_OP_GT):
+            if vx and ground(y) and z3.is_int(y):
+                out += [y, z3.simplify(y - 1), z3.simplify(y + 1)]
+            elif vy and ground(x) and z3.is_int(x):
+                out += [x, z3.simplify(x - 1), z3.simplify(x + 1)]
+    return [z3.simplify(t) for t in out]
+
+
+def var_offset(idx):
+    """idx == Var(0) + c  ->  c ; else None"""
+    if z3.is_var(idx) and z3.get_var_index(idx) == 0:
+        return 0
+    if z3.is_app(idx) and idx.decl().kind() in (z3.Z3_OP_ADD, z3.Z3_OP_SUB) and idx.num_args() == 2:
+        a, b = idx.arg(0), idx.arg(1)
+        if z3.is_var(a) and z3.get_var_index(a) == 0 and z3.is_int_value(b):
+            return b.as_long() if idx.decl().kind() == z3.Z3_OP_ADD else -b.as_long()
+        if z3.is_var(b) and z3.get_var_index(b) == 0 and z3.is_int_value(a) and idx.decl().kind() == z3.Z3_OP_ADD:
+            return a.as_long()
+    return None
+
+
+def ground_selects(fs, seen, table):
+    """table: base array id -> {index term id: index term} for ground select occurrences (after array expansion)"""
+    allt = []
+    for f in fs:
+        subterms(f, seen, allt)
+    for t in allt:
+        if z3.is_app(t) and t.decl().kind() == z3.Z3_OP_SELECT and ground(t.arg(1)):
+            i = z3.simplify(t.arg(1))
+            for base in strip_array(t.arg(0)):
+                table.setdefault(base.get_id(), {})[i.get_id()] = i
+        elif z3.is_app(t) and t.decl().kind() == z3.Z3_OP_STORE and ground(t.arg(1)):
+            i = z3.simplify(t.arg(1))
+            for base in strip_array(t.arg(0)):
+                table.setdefault(base.get_id(), {})[i.get_id()] = i
+        elif is_app_of(t, "wsum") and ground(t.arg(2)):
+            k = z3.simplify(t.arg(2))
+            for base in strip_array(t.arg(0)) + strip_array(t.arg(1)):
+                d = table.setdefault(base.get_id(), {})
+                for kk in (k, z3.simplify(k - 1)):
+                    d[kk.get_id()] = kk
+    return table
+
+
+MAX_INST_ROUNDS = 2
+MAX_INSTANCES = 4000
+
+
 def stage1(assertions, stats):
+    _EXP_MEMO.clear()
     fs = []
+    seen_ids = set()
     for a in assertions:
-        fs += conjuncts(a)
+        for c in conjuncts(a):
+            if c.get_id() not in seen_ids:       # the same definitional fact is often recorded several times
+                seen_ids.add(c.get_id())
+                fs.append(c)
     sk = Skolem()
-    # two rounds: instantiate at the index terms present, collect new index terms, instantiate again
-    ground_fs = [f for f in fs if not has_quant(f)]
-    quant_fs = [f for f in fs if has_quant(f)]
-    cur = list(ground_fs)
-    # first: skolemise (negative universals) so that their index terms are known
-    terms = index_terms(cur + quant_fs)
-    for rnd in range(MAXROUNDS):
-        st2 = {}
-        inst = [inst_formula(q, +1, terms, sk, st2) for q in quant_fs]
-        newterms = index_terms(cur + inst + st2.get("new_terms", []))
-        for t in st2.get("new_terms", []):
-            if z3.is_int(t):
-                newterms.append(t)
-        ids = {t.get_id() for t in terms}
-        grew = [t for t in newterms if t.get_id() not in ids]
-        if not grew or rnd == MAXROUNDS - 1:
-            stats.update({k: v for k, v in st2.items() if k != "new_terms"})
-            stats["index_terms"] = len(terms)
-            fs2 = cur + inst
+    cnt = itertools.count()
+    qs = []
+    ground_fs = []
+    dropped = 0
+    for f in fs:
+        if not has_quant(f):
+            ground_fs.append(f)
+            continue
+        try:
+            ground_fs.append(prep(f, +1, qs, sk, cnt))
+        except _Unsupported:
+            dropped += 1      # dropping a hypothesis is a weakening
+    seen = set()
+    table = {}
+    expanded = [expand_arrays(f) for f in ground_fs]
+    # goal-directed seeding: index terms of the (negated) goal -- the last assertion -- and of the ground hypotheses that talk about
+    # the same constants; index terms that only occur in unrelated older facts are not used as instantiation seeds
+    ngoal = len(conjuncts(assertions[-1])) if assertions else 0
+    goal_part = expanded[len(expanded) - ngoal:] if ngoal else expanded
+    goal_consts = set()
+    for g in goal_part:
+        for t in subterms(g):
+            if z3.is_const(t) and t.decl().kind() == z3.Z3_OP_UNINTERPRETED and not z3.is_array(t):
+                goal_consts.add(t.get_id())
+    related = list(goal_part)
+    for f in expanded[:len(expanded) - ngoal]:
+        cs = [t.get_id() for t in subterms(f) if z3.is_const(t) and t.decl().kind() == z3.Z3_OP_UNINTERPRETED and not z3.is_array(t)]
+        if cs and len(cs) <= 40 and any(c in goal_consts for c in cs):
+            related.append(f)
+    ground_selects(related, seen, table)
+    ninst = 0
+    qi = 0
+    for rnd in range(MAX_INST_ROUNDS):
+        new_fs = []
+        todo = list(qs)          # includes quantifiers discovered in earlier rounds (nested)
+        for q in todo:
+            if q.patterns is None:
+                q.patterns = q_patterns(q)
+            cands = {}
+            if rnd == 0:
+                for bt in q_bounds(q):          # boundary instantiation: lo, hi-1, hi of the quantifier's own range
+                    cands[bt.get_id()] = bt
+            if q.patterns:
+                for (aid, off) in q.patterns:
+                    for tid, t in table.get(aid, {}).items():
+                        c = z3.simplify(t - off) if off else t
+                        cands[c.get_id()] = c
+            else:
+                for d in table.values():
+                    for tid, t in d.items():
+                        cands[tid] = t
+            for cid, c in cands.items():
+                if cid in q.done or ninst >= MAX_INSTANCES:
+                    continue
+                q.done[cid] = c
+                ninst += 1
+                b = z3.substitute_vars(q.body, c)
+                try:
+                    inst = prep(b, +1, qs, sk, cnt)   # the instance clause (proxy => instance) is itself asserted
+                except _Unsupported:
+                    continue
+                if q.univ:
+                    new_fs.append(z3.Implies(q.proxy, inst))
+                else:
+                    q.done[cid] = inst
+        if not new_fs:
             break
-        terms = terms + grew
-        sk = Skolem()
-    else:
-        fs2 = cur
-    fs2 = [f for f in fs2 if not has_quant(f)] if any(has_quant(f) for f in fs2) else fs2
-    # arrays / wsum
-    fs3 = [expand_arrays(f) for f in fs2]
-    fs4, ax, extra = ackermannize(fs3, stats)
-    if extra:
-        # the wsum unfolding introduces selects on base arrays: expand and ackermannize them together with the rest
-        ex2 = [expand_arrays(e) for e in extra]
-        fs4b, ax2, _ = ackermannize(fs3 + ex2, stats)
-        return fs4b + ax2
+        ex = [expand_arrays(f) for f in new_fs]
+        expanded += ex
+        ground_selects(ex, seen, table)
+    # negative existentials: proxy => OR(instances)
+    for q in qs:
+        if not q.univ:
+            insts = [v for v in q.done.values() if z3.is_bool(v)]
+            expanded.append(z3.Implies(q.proxy, z3.Or(*insts) if insts else z3.BoolVal(False)))
+    stats["dropped_quantifiers"] = len(qs) + dropped
+    stats["instances"] = ninst
+    fs3 = expanded
+    # the wsum unfolding (instantiated recursive definition between the bounds present) introduces selects on base arrays:
+    # generate it first, so that one Ackermann pass sees everything
+    extra = wsum_unfoldings(fs3)
+    ex2 = [expand_arrays(e) for e in extra]
+    fs4, ax, _ = ackermannize(fs3 + ex2, stats)
+    stats["_goal_idx"] = list(range(len(ground_fs) - ngoal, len(ground_fs))) if ngoal else []
     return fs4 + ax
+
+
+def consts_of(f, cache):
+    i = f.get_id()
+    r = cache.get(i)
+    if r is None:
+        r = frozenset(t.get_id() for t in subterms(f) if z3.is_const(t) and t.decl().kind() == z3.Z3_OP_UNINTERPRETED)
+        cache[i] = r
+    return r
+
+
+def relevance_slice(fs, goal_idx, depth):
+    """Hypotheses within `depth` hops (shared constants) of the goal.  Dropping hypotheses only weakens the problem."""
+    cache = {}
+    cs = [consts_of(f, cache) for f in fs]
+    reach = set()
+    for i in goal_idx:
+        reach |= cs[i]
+    chosen = set(goal_idx)
+    for _ in range(depth):
+        new = set()
+        for i, c in enumerate(cs):
+            if i not in chosen and c and (c & reach):
+                chosen.add(i)
+                new |= c
+        if not new - reach:
+            break
+        reach |= new
+    return [fs[i] for i in sorted(chosen)]
 
 
 def check_formulas(fs, timeout_ms, seed=0, logic=None):
@@ -492,9 +789,21 @@ def discharge_smt2(smt2, timeout_s=20, use_cvc5=True, both=False):
     # portfolio: nlsat-based QF_NRA strategy (fast and stable on pure real problems) with a short budget, then the default solver,
     # then QF_NRA with the full budget
     r, model = "unknown", None
-    for label, logic, budget in (("stage1/z3-qfnra", "QF_NRA", min(timeout_s, 2)), ("stage1/z3", None, timeout_s), ("stage1/z3-qfnra", "QF_NRA", timeout_s)):
+    gi = stats.get("_goal_idx") or []
+    plan = []
+    if gi and len(fs) > 60:
+        # relevance slices first: small problems are decided fast and stably; an `unsat` of a slice is an `unsat` of the whole
+        for depth in (1, 2):
+            sl = relevance_slice(fs, gi, depth)
+            if len(sl) < 0.8 * len(fs):
+                plan.append(("stage1/z3-qfnra slice%d" % depth, "QF_NRA", min(timeout_s, 3), sl))
+                plan.append(("stage1/z3 slice%d" % depth, None, min(timeout_s, 4), sl))
+    plan += [("stage1/z3-qfnra", "QF_NRA", min(timeout_s, 2), fs), ("stage1/z3", None, timeout_s, fs), ("stage1/z3-qfnra", "QF_NRA", timeout_s, fs)]
+    for label, logic, budget, prob in plan:
         try:
-            r1, dt, m1, why = check_formulas(fs, budget * 1000, logic=logic)
+            r1, dt, m1, why = check_formulas(prob, budget * 1000, logic=logic)
+            if r1 == "sat" and prob is not fs:
+                r1 = "unknown"          # a model of a slice says nothing
         except z3.Z3Exception as e:
             r1, dt, m1, why = "unknown", 0.0, None, str(e)
         res["attempts"].append((label, r1, round(dt, 3)))
@@ -608,8 +917,13 @@ def quick_unsat(pc, timeout_ms=1500):
 
 def to_smt2(hyps, goal):
     s = z3.Solver()
+    seen = set()
     for h in hyps:
-        s.add(h if isinstance(h, z3.ExprRef) else z3.BoolVal(bool(h)))
+        h = h if isinstance(h, z3.ExprRef) else z3.BoolVal(bool(h))
+        if h.get_id() in seen:
+            continue
+        seen.add(h.get_id())
+        s.add(h)
     s.add(z3.Not(goal))
     return s.to_smt2()
 
